@@ -451,6 +451,11 @@ func (f *Flow) evalStruct(t *Term, env Env, fl *evalFlags) ISet {
 			}
 		case strings.HasSuffix(t.Name, ".Nanosecond"):
 			return mkSet(0, 999999999)
+		case strings.HasPrefix(t.Name, "consttable:") && len(t.Args) == 1:
+			// a package-level lookup table that is constant after initialisation: the image of the index set
+			if img := constTableImage(strings.TrimPrefix(t.Name, "consttable:"), f.eval(t.Args[0], env, fl)); img != nil {
+				return img
+			}
 		case t.Name == "getTag":
 			fs := f.eval(t.Args[0], env, fl)
 			if fs == nil || fs.Contains(-1) {
